@@ -12,9 +12,11 @@ import (
 	"os"
 	"os/exec"
 	"path/filepath"
+	"regexp"
 	"runtime"
 	"strconv"
 	"strings"
+	"syscall"
 
 	"verifharness/hc"
 )
@@ -92,6 +94,21 @@ func diskState(dir string, tr *tracker) string {
 	}
 	return "disk:" + strings.Join(fs, ";")
 }
+
+// inodeOf identifies the file object behind a table path: a COMMIT that rewrites a table renames a new
+// file over it, so the inode changes exactly when the table was written.
+func inodeOf(dir string, p int) uint64 {
+	fi, err := os.Stat(filepath.Join(dir, fmt.Sprintf("f%d.csv", p)))
+	if err != nil {
+		return 0
+	}
+	if st, ok := fi.Sys().(*syscall.Stat_t); ok {
+		return st.Ino
+	}
+	return 0
+}
+
+var reChanged = regexp.MustCompile(`(\d+) records? (?:inserted|updated|deleted|replaced) on "[^"]*f(\d)\.csv"`)
 
 func tempState(pr *hc.Proc, tr *tracker) string {
 	ts := make([]string, nTemps)
@@ -190,8 +207,29 @@ func oneHistory(g *hc.Gen, o *hc.Out, scratch, bin string, h int) {
 		pr.P.Tx.AutoCommit = false
 		o.Case("c01.reset "+strings.Join(init, " "), diskState(d, tr)+"|"+tempState(pr, tr))
 
-		steps := 3 + g.Intn(14)
+		// files a transaction never changed must not be rewritten by its COMMIT: which files had at least one
+		// record changed is read from csvq's own statement log, rewriting is seen as a new inode
 		var program []op
+		var inode [nFiles]uint64
+		var changed [nFiles]bool
+		snap := func() {
+			for p := 0; p < nFiles; p++ {
+				inode[p], changed[p] = inodeOf(d, p), false
+			}
+		}
+		snap()
+		checkRewritten := func(where string) {
+			for p := 0; p < nFiles; p++ {
+				if !changed[p] && !tr.created[p] && inode[p] != 0 && inodeOf(d, p) != inode[p] {
+					var sqls []string
+					for _, st := range program {
+						sqls = append(sqls, st.sql)
+					}
+					o.Law("untouched_file_rewritten", map[string]interface{}{"file": fmt.Sprintf("f%d.csv", p), "at": where, "history": h, "initial_files": init, "statements_so_far": sqls})
+				}
+			}
+		}
+		steps := 3 + g.Intn(14)
 		for s := 0; s < steps; s++ {
 			p := g.Intn(nFiles)
 			t := g.Intn(nTemps)
@@ -222,6 +260,25 @@ func oneHistory(g *hc.Gen, o *hc.Out, scratch, bin string, h int) {
 				line, sql = fmt.Sprintf("c01.selectfu %d", p), fmt.Sprintf("SELECT v FROM `f%d.csv` FOR UPDATE", p)
 				if tr.exists[p] {
 					tr.locked[p] = true
+				}
+			case c < 12 && g.Intn(4) == 0:
+				// multi-table DELETE over a LEFT JOIN: rows v = a of file p and the rows of file q they join with
+				pickFile(true)
+				q := g.Intn(nFiles)
+				for k := 0; k < 8 && (q == p || !tr.exists[q]); k++ {
+					q = g.Intn(nFiles)
+				}
+				if q == p {
+					continue
+				}
+				a := g.Intn(5)
+				line = fmt.Sprintf("c01.deljoin %d %d %d", p, q, a)
+				sql = fmt.Sprintf("DELETE a, b FROM `f%d.csv` a LEFT JOIN `f%d.csv` b ON a.v = b.v WHERE a.v = %d;", p, q, a)
+				if tr.exists[p] {
+					tr.locked[p] = true
+					if tr.exists[q] {
+						tr.locked[q] = true
+					}
 				}
 			case c < 12:
 				pickFile(true)
@@ -258,6 +315,7 @@ func oneHistory(g *hc.Gen, o *hc.Out, scratch, bin string, h int) {
 					xs[i] = 5 + g.Intn(5)
 				}
 				_ = os.WriteFile(filepath.Join(d, fmt.Sprintf("f%d.csv", p)), fileBytes(xs), 0o644)
+				inode[p] = inodeOf(d, p)
 				o.Case(fmt.Sprintf("c01.other %d %s", p, tbl(xs)), "ok|"+diskState(d, tr)+"|"+tempState(pr, tr))
 				o.Count("op:other")
 				continue
@@ -271,12 +329,20 @@ func oneHistory(g *hc.Gen, o *hc.Out, scratch, bin string, h int) {
 					got = "rows:" + rowsOf(v.RecordLen(), func(i int) string { return hc.StrOf(hc.ViewCell(v, i, 0)) })
 				}
 			} else {
-				_, err := pr.Exec(sql)
+				out, err := pr.Exec(sql)
 				got = "ok"
 				if err != nil {
 					got = "failed"
 					if hc.ErrNum(err) < 0 || strings.Contains(err.Error(), "Fatal") {
 						o.Law("internal_error", map[string]interface{}{"sql": sql, "error": err.Error()})
+					}
+				}
+				for _, m := range reChanged.FindAllStringSubmatch(out, -1) {
+					if n, _ := strconv.Atoi(m[1]); n > 0 {
+						fp, _ := strconv.Atoi(m[2])
+						if fp < nFiles {
+							changed[fp] = true
+						}
 					}
 				}
 			}
@@ -288,10 +354,14 @@ func oneHistory(g *hc.Gen, o *hc.Out, scratch, bin string, h int) {
 				// creation refused (e.g. the file existed): undo the optimistic marks
 			}
 			if line == "c01.commit" {
+				checkRewritten("COMMIT")
 				tr.endTx(true)
+				snap()
 			}
 			if line == "c01.rollback" {
+				checkRewritten("ROLLBACK")
 				tr.endTx(false)
+				snap()
 			}
 			o.Case(line, got+"|"+diskState(d, tr)+"|"+tempState(pr, tr))
 			o.Count("op:" + strings.Fields(line)[0])
@@ -304,6 +374,7 @@ func oneHistory(g *hc.Gen, o *hc.Out, scratch, bin string, h int) {
 				o.Law("autocommit_error", err.Error())
 			}
 			_ = pr.P.ReleaseResourcesWithErrors()
+			checkRewritten("end of a normal run")
 			tr.endTx(true)
 		} else {
 			_ = pr.P.AutoRollback()
